@@ -642,7 +642,7 @@ func main() {
 	rep.Rule = "magic blocks of 1-10 miners with real BLS keys; per scenario: ticket messages (valid, signed by another key, for another hash, undecodable, " +
 		"from a registered node outside the magic block, from a made-up id, duplicates) through the real handleVerificationTicketMessage, then a block of " +
 		"another miner carrying such tickets (or only forged ones, or one valid ticket repeated) through the real processVerifyBlock (optionally via its JSON " +
-		"encoding), then VerifyNotarization on ticket lists incl. exactly threshold valid ones, threshold-1, and pairs of signatures whose errors cancel; " +
+		"encoding), then Notarization messages through the real notarizationProcess on fresh blocks holding zero or one ticket (one valid ticket repeated >= threshold times, threshold distinct, repeats mixed in, random lists), then VerifyNotarization on ticket lists incl. exactly threshold valid ones, threshold-1, and pairs of signatures whose errors cancel; " +
 		"all orders of up to 6 tickets for one small instance; non-trivial = a scenario with at least one rejected and one stored ticket message, or a block carrying tickets"
 	cf := &vh.CasesFile{Imports: []string{"Base.Corr", "Model.Notarize", "Corr.Notarize"}, CaseType: "ntc_case", CheckFn: "ntc_check", Shard: 14}
 
